@@ -310,8 +310,10 @@ pub fn configs(quick: bool) -> Vec<Config> {
             }
         }
     }
-    v.push(cfg("gcc", C, &["-gdwarf-4", "-gdwarf64", "-O1"]));
-    v.push(cfg("gcc", Cpp, &["-gdwarf-5", "-gdwarf64", "-O2"]));
+    // -gno-as-loc-support: gcc writes .debug_line itself (in the 64-bit format under
+    // -gdwarf64; gas 2.40 only writes 32-bit line tables)
+    v.push(cfg("gcc", C, &["-gdwarf-4", "-gdwarf64", "-O1", "-gno-as-loc-support"]));
+    v.push(cfg("gcc", Cpp, &["-gdwarf-5", "-gdwarf64", "-O2", "-gno-as-loc-support"]));
     v.push(cfg("gcc", C, &["-gdwarf-4", "-O1", "-fdebug-types-section"]));
     v.push(cfg("gcc", Cpp, &["-gdwarf-5", "-O1", "-fdebug-types-section"]));
     v.push(cfg("clang", Cpp, &["-gdwarf-4", "-O1", "-fdebug-types-section"]));
@@ -333,6 +335,8 @@ pub fn configs(quick: bool) -> Vec<Config> {
     v.push(cfg("gcc", Cpp, &["-gdwarf-4", "-O1", "-fno-omit-frame-pointer"]));
     v.push(cfg("clang", Cpp, &["-gdwarf-4", "-O2", "-fno-omit-frame-pointer", "-gno-column-info"]));
     v.push(cfg("gcc", C, &["-gdwarf-5", "-Os", "-fno-inline"]));
+    v.push(cfg("gcc", Cpp, &["-gdwarf-3", "-O2", "-gno-as-loc-support"]));
+    v.push(cfg("gcc", C, &["-gdwarf-5", "-gdwarf64", "-O0"]));
     v.push(cfg("clang", Cpp, &["-gdwarf-5", "-O3", "-fdebug-info-for-profiling"]));
     v
 }
